@@ -4,7 +4,9 @@
 //! case   `pool <size> <op>…`   ops: `i` instant job · `s<µs>` sleeping job · `b` barrier job
 //!         (returns once `size` barrier jobs wait at the same time) · `w<k>` long job (returns once
 //!         `k` jobs submitted after it have finished) · `p<µs>` pause of the
-//!         submitting thread · `y` yield of the submitting thread · `D` drop now (default: at the end)
+//!         submitting thread · `y` yield of the submitting thread · `D` drop now (default: at the end) ·
+//!         `U` drop now BY UNWINDING: the owner of the pool panics with the pool in scope (the panic is caught
+//!         by the harness; the pool's Drop runs while `std::thread::panicking()`), and must drain all the same
 //! output `size=<n> subm=<m> once=… early=… par=… indep=… joined=… drop=… maxconc=<k> :: <trace tokens>`
 //!   once   = ok | bad:<j>x<count>,…   executions per submitted job, read after everything settled
 //!   early  = ok | bad:<j>,…           jobs whose closure had not returned when `drop` returned
@@ -133,6 +135,7 @@ enum Op {
     Pause(u64),
     Yield,
     Drop,
+    Unwind,
 }
 
 fn parse(words: &[&str]) -> Option<(usize, Vec<Op>)> {
@@ -150,6 +153,7 @@ fn parse(words: &[&str]) -> Option<(usize, Vec<Op>)> {
             'b' if w.len() == 1 => Op::Barrier,
             'y' if w.len() == 1 => Op::Yield,
             'D' if w.len() == 1 => Op::Drop,
+            'U' if w.len() == 1 => Op::Unwind,
             's' => Op::Sleep(w[1..].parse().ok()?),
             'p' => Op::Pause(w[1..].parse().ok()?),
             'w' => Op::Waiter(w[1..].parse().ok()?),
@@ -192,6 +196,7 @@ fn drive(n: usize, ops: &[Op], barrier_deadline: Duration) -> Facts {
     let pool = ThreadPool::new(n, Box::new(NullLogger));
     let mut submitted = 0usize;
     let mut barrier_jobs = 0usize;
+    let mut unwind = false;
     for op in ops {
         let kind = match op {
             Op::Pause(us) => {
@@ -203,6 +208,10 @@ fn drive(n: usize, ops: &[Op], barrier_deadline: Duration) -> Facts {
                 continue;
             }
             Op::Drop => break,
+            Op::Unwind => {
+                unwind = true;
+                break;
+            }
             k => *k,
         };
         if let Op::Barrier = kind {
@@ -239,7 +248,18 @@ fn drive(n: usize, ops: &[Op], barrier_deadline: Duration) -> Facts {
             progress.mark(j);
         });
     }
-    drop(pool);
+    if unwind {
+        // the owner unwinds: the pool is dropped by the unwinding of a panicking closure
+        let hook = std::panic::take_hook();
+        std::panic::set_hook(Box::new(|_| {}));
+        let _ = std::panic::catch_unwind(std::panic::AssertUnwindSafe(move || {
+            let _owned = pool;
+            panic!("the owner of the pool panics");
+        }));
+        std::panic::set_hook(hook);
+    } else {
+        drop(pool);
+    }
     // the instant `drop` has returned: which closures have returned?
     let ended_at_drop: Vec<usize> = (0..submitted).map(|j| ended[j].load(Ordering::SeqCst)).collect();
     // all worker threads gone?  (a joined thread may linger in /proc for a moment: poll, 5 s)
